@@ -27,6 +27,7 @@ import (
 	"pgregory.net/rapid"
 
 	"verif/harness/hx"
+	"verif/harness/model"
 )
 
 func TestMain(m *testing.M) { hx.Main(m, "C18") }
@@ -91,7 +92,7 @@ func flowMod() *module {
 		},
 		valid: func(r any) bool {
 			x := r.(*flow.Rule)
-			return flow.IsValidRule(x) == nil && x.ControlBehavior >= 0 && x.ControlBehavior <= flow.Throttling && x.TokenCalculateStrategy <= flow.MemoryAdaptive
+			return model.ValidFlow(x) && x.ControlBehavior >= 0 && x.ControlBehavior <= flow.Throttling && x.TokenCalculateStrategy <= flow.MemoryAdaptive
 		},
 		current: func() []string {
 			var out []string
@@ -141,7 +142,7 @@ func isolationMod() *module {
 			x.ID = ""
 			return fmt.Sprintf("%+v", x)
 		},
-		valid: func(r any) bool { return isolation.IsValidRule(r.(*isolation.Rule)) == nil },
+		valid: func(r any) bool { return model.ValidIsolation(r.(*isolation.Rule)) },
 		current: func() []string {
 			var out []string
 			for _, r := range isolation.GetRules() {
@@ -189,7 +190,7 @@ func systemMod() *module {
 			x.ID = ""
 			return fmt.Sprintf("%+v", x)
 		},
-		valid: func(r any) bool { return system.IsValidSystemRule(r.(*system.Rule)) == nil },
+		valid: func(r any) bool { return model.ValidSystem(r.(*system.Rule)) },
 		current: func() []string {
 			var out []string
 			for _, r := range system.GetRules() {
@@ -245,7 +246,7 @@ func cbMod() *module {
 		},
 		encode: marshalList,
 		key:    func(r any) string { return cbKey(r.(*cb.Rule)) },
-		valid:  func(r any) bool { return cb.IsValidRule(r.(*cb.Rule)) == nil },
+		valid:  func(r any) bool { return model.ValidCb(r.(*cb.Rule)) },
 		current: func() []string {
 			var out []string
 			for _, r := range cb.GetRules() {
@@ -388,7 +389,7 @@ func hotspotMod() *module {
 		key: func(r any) string { return hotKey(r.(*hotspot.Rule)) },
 		valid: func(r any) bool {
 			x := r.(*hotspot.Rule)
-			return hotspot.IsValidRule(x) == nil && (x.ControlBehavior == hotspot.Reject || x.ControlBehavior == hotspot.Throttling) && (x.MetricType == hotspot.QPS || x.MetricType == hotspot.Concurrency)
+			return model.ValidHotspot(x) && (x.ControlBehavior == hotspot.Reject || x.ControlBehavior == hotspot.Throttling) && (x.MetricType == hotspot.QPS || x.MetricType == hotspot.Concurrency)
 		},
 		current: func() []string {
 			var out []string
